@@ -45,7 +45,7 @@ struct Outcome {
 }
 
 /// uniform access to the per-type inherent hook functions
-trait Hk: Digest + Default + digest::FixedOutput + digest::Reset + digest::Update {
+trait Hk: Digest + Default + Clone + digest::FixedOutput + digest::Reset + digest::Update {
     fn set(&mut self, x: &[u8], t: (u64, u64), buffered: &[u8]);
     fn get(&self) -> (Vec<u8>, (u64, u64), Vec<u8>, usize);
 }
@@ -82,6 +82,9 @@ fn run_typed<H: Hk>(inp: &Input) -> Outcome {
                 }
                 3 => {
                     digest::Update::update(&mut h, &[0x5au8; 200][..]);
+                    // tweak position far into a message before the reset
+                    let (x, t, _, _) = h.get();
+                    h.set(&x, ((1u64 << 40) + 96, t.1), &[0x11u8; 3][..]);
                     digest::Reset::reset(&mut h);
                 }
                 _ => {}
@@ -93,7 +96,14 @@ fn run_typed<H: Hk>(inp: &Input) -> Outcome {
         Digest::update(&mut h, &inp.msg[..inp.split]);
         Digest::update(&mut h, &inp.msg[inp.split..]);
         let (_, t, _, pos) = h.get();
-        let d = h.finalize();
+        // a third of the cases: the digest of a clone taken after the data was absorbed
+        let d = if (inp.msg.len() + inp.split) % 3 == 1 {
+            let c = h.clone();
+            Digest::update(&mut h, b"x");
+            c.finalize()
+        } else {
+            h.finalize()
+        };
         (t, pos, d.to_vec())
     }));
     match r {
